@@ -391,11 +391,13 @@ class Exec:
         self.vacuity(st, "requires")
         self.cut_base = st.clone()
         results = self.exec_block(fn.body, st)
-        if set(self.c.asserts) - getattr(self, "asserts_seen", set()):
-            self.notes.append(f"{self.qualname}: assertion anchors not found in the current source: {sorted(set(self.c.asserts) - getattr(self, 'asserts_seen', set()))}")
-        if self.c.cuts and set(self.c.cuts) - getattr(self, "cut_seen", set()):
-            # a cut point is a proof aid: when its statement is gone the paths simply run on to the next cut (whose clauses still have to hold)
-            self.notes.append(f"{self.qualname}: cut anchors not found in the current source (no cut made there): {sorted(set(self.c.cuts) - self.cut_seen)}")
+        # A cut point / assertion / statement-anchored hint whose statement is no longer in the source: the contract does not line up with the code any
+        # more.  That is reported as such (the check exits 3 unless a stand-in finds a concrete failing input) - running on without the proof aid would
+        # turn a harmless rewrite of the anchored statement into obligations that time out, i.e. into a false alarm.
+        missing = sorted(set(self.c.asserts) - getattr(self, "asserts_seen", set())) + sorted(set(self.c.cuts) - getattr(self, "cut_seen", set()))
+        missing += sorted(a_ for a_ in self.c.hints if a_ != "return" and a_ not in self.c.cuts and a_ not in getattr(self, "hints_seen", set()))
+        if missing:
+            raise AnchorMismatch(f"{self.qualname}: statements the contract is anchored at are not in the current source: {missing}")
         for s, flow, val in results:
             if flow == Flow.NEXT:
                 flow, val = Flow.RETURN, VNone()
@@ -643,11 +645,22 @@ class Exec:
                     continue
                 src = src if src is not None else ast.unparse(stmt)
                 if src.startswith(anchor):
+                    self.hints_seen = getattr(self, "hints_seen", set()) | {anchor}
                     for hnt in hs:
                         try:
                             st.assume(self.lemma_instance(hnt, st))
-                        except UndefinedName:
-                            pass  # the hint mentions a local that does not exist on this path: no instance (fewer assumptions)
+                        except UndefinedName as e_:
+                            # the hint mentions a local that does not exist on this path: no instance (fewer assumptions).  A name the function
+                            # never binds at all means the contract no longer lines up with the code: that is a checker error, not a proof failure
+                            nm_ = str(e_).replace("name ", "").strip()
+                            known_ = assigned_names(self.fn.body) | {a.arg for a in self.fn.args.args + self.fn.args.kwonlyargs + self.fn.args.posonlyargs}
+                            for sub_ in ast.walk(self.fn):
+                                if isinstance(sub_, (ast.For, ast.comprehension)):
+                                    known_ |= {n_.id for n_ in ast.walk(sub_.target) if isinstance(n_, ast.Name)}
+                                if isinstance(sub_, ast.NamedExpr):
+                                    known_.add(sub_.target.id)
+                            if nm_ not in known_:
+                                raise AnchorMismatch(f"{self.qualname}: hint `{hnt}` mentions `{nm_}`, which the function no longer binds")
         if self.c.asserts and self.call_depth == 0:
             src_ = ast.unparse(stmt)
             for anchor, cl in self.c.asserts.items():
